@@ -12,7 +12,7 @@ use kinded::{Kind, Kinded};
 use proc_macro2::{Ident, Span};
 use syn::{
     parenthesized,
-    parse::{Parse, ParseStream},
+    parse::{discouraged::Speculative, Parse, ParseStream},
     spanned::Spanned,
     token::Paren,
     Expr, Lit, Token,
@@ -357,7 +357,15 @@ pub fn parse_number_or_expr<T>(input: ParseStream) -> syn::Result<(ValueOrExpr<T
 where
     T: FromStr,
 {
-    if let Ok((number, span)) = parse_number::<T>(input) {
+    // Parse the number speculatively on a fork, so that no tokens are consumed from `input`
+    // unless the whole bound is a number literal (optionally negated).
+    // Otherwise a failed attempt would eat the leading `-` (or literal) of an expression
+    // like `-MAX_LEN` or `5i32 - MAX_LEN`.
+    let fork = input.fork();
+    let parsed_number = parse_number::<T>(&fork);
+    let literal_is_whole_value = fork.is_empty() || fork.peek(Token![,]);
+    if let (Ok((number, span)), true) = (parsed_number, literal_is_whole_value) {
+        input.advance_to(&fork);
         Ok((ValueOrExpr::Value(number), span))
     } else {
         let expr: Expr = input.parse()?;
